@@ -5,7 +5,7 @@ its last sentence ("orientation of the input (and ReverseSolution) is preserved 
 unchanged"): the clean-up union's fill rule / ReverseSolution / output target table, the insignificant-delta shortcut,
 the sign of the group delta and the definition of a reversed group; plus the per-group state independence of C12.
 """
-from ..astq import AstDB
+from ..astq import AstDB, walk, kids, strip, where
 from ..astq import walk
 from ..engines import e12_plumbing as e12
 from ..engines import e2_state as e2
@@ -44,6 +44,30 @@ def run(chk):
         from ..engines import e14_poly as e14
         e14.rule_offset(db, chk, cfg)
         e12.join_dispatch_table(db, chk, cfg)
+        # the orientation-corrected delta: only the functions that derive group_delta_ read the caller's delta_
+        rec = db.record("ClipperOffset")
+        fid = [fd["id"] for fd in rec.fields if fd.get("name") == "delta_"]
+        gid = [fd["id"] for fd in rec.fields if fd.get("name") == "group_delta_"]
+        if not fid or not gid:
+            raise AnalysisBroken("ClipperOffset::delta_ / group_delta_ vanished")
+        nread = 0
+        for f0 in db.funcs:
+            if f0.cls != "ClipperOffset" or f0.is_pattern or f0.body is None:
+                continue
+            writes_g = any(x.get("kind") in ("BinaryOperator", "CompoundAssignOperator") and x.get("opcode", "").endswith("=") and x.get("opcode") not in ("==", "!=", "<=", ">=")
+                           and strip(kids(x)[0]).get("kind") == "MemberExpr" and strip(kids(x)[0]).get("referencedMemberDecl") == gid[0] for x in walk(f0.body))
+            written = {id(strip(kids(x)[0])) for x in walk(f0.body) if x.get("kind") == "BinaryOperator" and x.get("opcode") == "="}
+            for x in walk(f0.body):
+                if x.get("kind") == "MemberExpr" and x.get("referencedMemberDecl") == fid[0] and id(x) not in written:
+                    nread += 1
+                    ok = writes_g
+                    chk.instance("OFFSET.sign", {"function": f0.qual, "reads": "delta_", "derives_group_delta_": writes_g, "cfg": cfg}, ok=ok)
+                    if not ok:
+                        chk.violation("OFFSET.sign", f0.qual, "delta_|read", "%s reads the caller's delta_ although it does not derive group_delta_: the sign of delta_ is not "
+                                      "corrected for the orientation of the group (a clockwise outer path is offset with -delta), so a decision based on it is "
+                                      "inverted for clockwise input" % f0.qual, where(x), cfg=cfg)
+        if nread < 1:
+            raise AnalysisBroken("OFFSET.sign: delta_ is never read in ClipperOffset")
         # groups are offset independently of each other (several groups in one ClipperOffset)
         eng = e2.E2(db, chk, cfg, ["ClipperOffset"])
         OFF, why = offset_table(db)
